@@ -316,7 +316,7 @@ pub fn run_chunk_lens(args: &Args, mut out: Out) {
             let res = catch(|| poll_budget(copy_chunked_async(&mut src, &mut w), 100));
             let ok = matches!(res, Ok(Some(CopyResult::Ok(_))));
             let walk = walk_chunked(&w.got);
-            v.push((n, json!({"n": n, "ok": ok, "pieces": src.delivered, "srcLen": src.dg.1, "srcDigest": src.dg.value(), "srcPrefixDigest": src.dg.value(), "walk": walk, "fault": "none", "res": if ok { "Ok" } else { "Fail" }})));
+            v.push((n, json!({"n": n, "ok": ok, "pieces": src.delivered, "srcLen": src.dg.1, "srcDigest": src.dg.value(), "srcPrefixDigest": src.dg.value(), "walk": walk, "fault": "none", "transient": false, "res": if ok { "Ok" } else { "Fail" }})));
         }
         v
     });
@@ -363,6 +363,11 @@ pub fn run_chunk_gen(args: &Args, mut out: Out) {
             }
             let b = *bounds.choose(&mut r).unwrap();
             w.fail_after = Some(if fault == 2 { b } else { (b + r.gen_range(1..7)).min(dry_w.got.len().saturating_sub(1)) });
+            // the error's kind varies, and half of the writers would accept bytes again after reporting it once: an encoder
+            // that retries must not put any byte on the wire twice
+            use std::io::ErrorKind as K;
+            w.fail_kind = *[K::BrokenPipe, K::Interrupted, K::ConnectionReset, K::WouldBlock, K::TimedOut, K::Interrupted].choose(&mut r).unwrap();
+            w.fail_once = r.gen_bool(0.5) || matches!(w.fail_kind, K::Interrupted | K::WouldBlock);
         }
         let res = catch(|| poll_budget(copy_chunked_async(&mut src, &mut w), 10_000_000));
         let res_s = match res {
@@ -386,23 +391,28 @@ pub fn run_chunk_gen(args: &Args, mut out: Out) {
             sid,
             "Chunks",
             json!({"n": total, "ok": res_s == "Ok", "pieces": src.delivered, "srcLen": src.dg.1, "srcDigest": src.dg.value(),
-                   "srcPrefixDigest": digest(&prefix), "walk": walk, "fault": fault_name, "res": res_s}),
+                   "srcPrefixDigest": digest(&prefix), "walk": walk, "fault": fault_name, "res": res_s, "transient": w.fail_once}),
         );
     }
     out.finish();
 }
 
 // ------------------------------------------------------------------------------ faults
+/// The scripted write error at offset k: its kind varies with the offset, and at every other offset the writer would
+/// accept bytes again after reporting it once.  (Interrupted and WouldBlock are transient by nature: a writer that reported
+/// them for ever would make a retrying implementation spin, which no budget of polls can interrupt.)
+fn write_fault(k: usize) -> (std::io::ErrorKind, bool) {
+    use std::io::ErrorKind as K;
+    let kind = [K::BrokenPipe, K::Interrupted, K::ConnectionReset, K::WouldBlock, K::TimedOut, K::Interrupted, K::WriteZero][k % 7];
+    (kind, k % 2 == 1 || matches!(kind, K::Interrupted | K::WouldBlock))
+}
 fn ser(resp: &Response, close: bool, fail_after: Option<usize>, mode: WMode, on_first: Option<Box<dyn FnOnce() + Send>>) -> (Vec<u8>, String) {
     let mut w = ScriptedWriter::new(mode);
     w.fail_after = fail_after;
     if let Some(k) = fail_after {
-        // the error's kind varies with the offset, and at every other offset the writer would accept bytes again afterwards
-        use std::io::ErrorKind as K;
-        w.fail_kind = [K::BrokenPipe, K::Interrupted, K::ConnectionReset, K::WouldBlock, K::TimedOut, K::Interrupted, K::WriteZero][k % 7];
-        // (Interrupted and WouldBlock are transient by nature: a writer that reported them for ever would make a retrying
-        // implementation spin, which no budget of polls can interrupt)
-        w.fail_once = k % 2 == 1 || matches!(w.fail_kind, K::Interrupted | K::WouldBlock);
+        let (kind, once) = write_fault(k);
+        w.fail_kind = kind;
+        w.fail_once = once;
     }
     w.on_first_write = on_first;
     let r = catch(|| poll_budget(write_http_response(&mut w, resp, close), 5_000_000));
@@ -466,7 +476,8 @@ pub fn run_faults(args: &Args, mut out: Out) {
                     sid,
                     "WriteFault",
                     json!({"variant":variant,"k":k,"canonLen":canon.len(),"canonRes":res0,"gotLen":got.len(),"gotDigest":digest(&got),
-                           "prefixDigest":digest(&canon[..k.min(canon.len())]),"res":res,"mode":format!("{mode:?}")}),
+                           "prefixDigest":digest(&canon[..k.min(canon.len())]),"res":res,"mode":format!("{mode:?}"),
+                           "transient":write_fault(k).1,"canonDigest":digest(&canon)}),
                 );
             }
         }
@@ -770,6 +781,55 @@ pub fn run_status(_args: &Args, mut out: Out) {
             json!({"code":code,"res":res_kind(&Some(r)),"closeHeader":head.split("\r\n").any(|l| l.eq_ignore_ascii_case("connection: close")),
                    "shut":shut,"gotCode":head.get(9..12).and_then(|s| s.parse::<u32>().ok()).unwrap_or(0)}),
         );
+    }
+    // ---- the answers the SERVER generates for bad requests, read off the wire of a real server: the marker follows the
+    // code that is written, whatever the error was ----
+    {
+        safina::timer::start_timer_thread();
+        let executor = safina::executor::Executor::new(2, 2).unwrap();
+        let cache = temp_dir::TempDir::new().unwrap();
+        let permit = permit::Permit::new();
+        let handler = |req: Request| match req.body.is_pending() {
+            true => Response::get_body_and_reprocess(10),
+            false => Response::text(200, "ok"),
+        };
+        let (addr, _stopped) = executor
+            .block_on(HttpServerBuilder::new().max_conns(20).small_body_len(4).receive_large_bodies(cache.path()).permit(permit.new_sub()).spawn(handler))
+            .unwrap();
+        let long = format!("GET / HTTP/1.1\r\nx: {}\r\n\r\n", "a".repeat(9000));
+        let wires: Vec<(&str, Vec<u8>)> = vec![
+            ("UnsupportedProtocol", b"GET / HTTP/1.0\r\n\r\n".to_vec()),
+            ("UnsupportedProtocol", b"GET / HTTP/2.0\r\n\r\n".to_vec()),
+            ("MalformedRequestLine", b"GET /\r\n\r\n".to_vec()),
+            ("MalformedPath", b"GET x HTTP/1.1\r\n\r\n".to_vec()),
+            ("MalformedHeaderLine", b"GET / HTTP/1.1\r\nbad line\r\n\r\n".to_vec()),
+            ("HeadTooLong", long.into_bytes()),
+            ("InvalidContentLength", b"PUT / HTTP/1.1\r\ncontent-length: x\r\n\r\n".to_vec()),
+            ("UnsupportedTransferEncoding", b"PUT / HTTP/1.1\r\ntransfer-encoding: zip\r\n\r\n".to_vec()),
+            ("MalformedCookieHeader", b"GET / HTTP/1.1\r\ncookie: novalue\r\n\r\n".to_vec()),
+            ("BodyTooLong", b"PUT / HTTP/1.1\r\ncontent-length: 50\r\n\r\n".to_vec()),
+            ("Truncated", b"PUT / HTTP/1.1\r\ncontent-length: 3\r\n\r\na".to_vec()),
+            ("none", b"GET / HTTP/1.1\r\n\r\n".to_vec()),
+        ];
+        for (what, wire) in wires {
+            sid += 1;
+            let mut c = std::net::TcpStream::connect(addr).unwrap();
+            c.set_read_timeout(Some(std::time::Duration::from_secs(5))).unwrap();
+            let _ = c.write_all(&wire);
+            let _ = c.shutdown(std::net::Shutdown::Write);
+            let mut got = Vec::new();
+            let _ = c.read_to_end(&mut got);
+            let head = String::from_utf8_lossy(&got).to_string();
+            // the last status line is the final answer (a 100 Continue may precede it)
+            let last = head.rfind("HTTP/1.1 ").unwrap_or(0);
+            let tail = &head[last..];
+            let code = tail.get(9..12).and_then(|s| s.parse::<u32>().ok()).unwrap_or(0);
+            let head_end = tail.find("\r\n\r\n").unwrap_or(tail.len());
+            out.ev(sid, "Reset", json!({}));
+            out.ev(sid, "WireCloseMark", json!({"what": what, "code": code,
+                   "closeHeader": tail[..head_end].split("\r\n").any(|l| l.eq_ignore_ascii_case("connection: close"))}));
+        }
+        drop(permit);
     }
     out.finish();
 }
